@@ -33,6 +33,10 @@ class SpecLib:
                     self.file_of[n.name] = p.name
         self.calls = {f: self._callees(n) for f, n in self.funcs.items()}
         self.recursive = {f for f in self.funcs if self._reaches(f, f)}
+        # opaque: first statement is the docstring marker "opaque: ..." -- never inlined, unfolded only
+        # where a contract reveals it (keeps queries small; Verus-style opaque/reveal)
+        self.opaque = {f for f, n in self.funcs.items() if (ast.get_docstring(n) or "").startswith("opaque")}
+        self.revealed: set[str] = set()
         self.decls: dict[str, z3.FuncDeclRef] = {}
         self.sig: dict[str, tuple] = {}
         self._inlining: list[str] = []
@@ -93,7 +97,7 @@ class SpecLib:
         ps, ret = self.kinds(name)
         if len(args) != len(ps):
             raise Unsupported(f"spec {name}: arity")
-        if name not in self.recursive:
+        if name not in self.recursive and name not in self.opaque:
             if name in self._inlining:
                 raise Unsupported("recursion through inlining " + name)
             return self.body_val(name, [T(k, self.coerce(a, k)) for a, (_, k) in zip(args, ps)])
@@ -166,6 +170,8 @@ class SpecLib:
                     continue
                 done.add(key)
                 name = by_decl[app.decl().name()]
+                if name in self.opaque and name not in self.revealed:
+                    continue
                 insts = [app]
                 if successor and level == 0:
                     ps, _ = self.kinds(name)
